@@ -482,3 +482,23 @@ package task
 //@   ensures task == nil ==> !c
 //@   ensures task != nil ==> c == (own || (roleAsked && role))
 //@   ensures task != nil && !own && task.parent != nil ==> roleAsked
+
+// ---------------------------------------------------------------------------------------------------------
+// C05: the ports handed to a task come from the offer: every dynamic port and the control port is the minimum of what is
+// left of the offer's ports after cutting the reserved low range, is taken only when something IS left (Ranges.Min
+// panics on empty ranges - a genuine defect found here, repaired by a fix: commit), and is subtracted from what is left
+// before the next one is taken, so the ports of one task are pairwise distinct.
+//@ func makeTaskForMesosResources(state *schedulerState, offer *mesos.Offer, descriptor *Descriptor, wants *Wants, limits *Limits, remainingResourcesInOffer mesos.Resources, machinesUsed map[string]struct{}, targetExecutorId mesos.ExecutorID, envId uid.ID, descriptorDetector string, offerIDsToDecline map[mesos.OfferID]struct{}) (t *Task, ti *mesos.TaskInfo)
+//@   property C05
+//@   ghostvar lastMin uint64 = 0
+//@   ghostvar haveMin bool = false
+//@   ghostvar spanned bool = false
+//@   ghostvar cut bool = false
+//@   on aftercall resources.Ports : cut = false
+//@   on call (mesos.Ranges).Remove : assert arg1.Begin == 0 && (arg1.End == 8999 || arg1.End == 29999) ; cut = true
+//@   on aftercall (mesos.Ranges).Min : assert !haveMin && cut ; lastMin = result ; haveMin = true ; spanned = false
+//@   on call (*resources.RangeBuilder).Span when haveMin : assert arg1 == lastMin && arg2 == lastMin ; spanned = true
+//@   on call (*mesos.Resources).Subtract : assert haveMin && spanned ; haveMin = false
+//@   on call channel.NewBoundTcpEndpoint : assert !haveMin && arg0 == lastMin
+//@   loop 1 invariant !haveMin
+//@   ensures t != nil ==> !haveMin
